@@ -262,6 +262,12 @@ def model_names(draw, n):
     return [names[i] for i in perm]
 
 
+def long_names(names):
+    """descriptive names of more than 30 characters, several of which share their first 30 (legal in a cube package fitted
+    at wavelengths: only the 30-character columns of convolved-flux files limit the length)"""
+    return ['atmos_teff%05d_logg4.50_feh+0.00_alpha%d.%d_%s' % (5000 + 250 * (i // 3), i % 3, i, n) for i, n in enumerate(names)]
+
+
 @st.composite
 def grids_2d(draw, nfilt, nmin=1, nmax=8):
     n = draw(st.integers(nmin, nmax))
@@ -278,7 +284,7 @@ def grids_2d(draw, nfilt, nmin=1, nmax=8):
 
 
 @st.composite
-def fit_case_2d(draw, max_models=8, max_filters=6, max_sources=5, formats=('v1', 'v1', 'v2name', 'v2wav'),
+def fit_case_2d(draw, max_models=8, max_filters=6, max_sources=5, formats=('v1', 'v1', 'v2name', 'v2wav', 'v2mixed'),
                 ignored='positive'):
     law = draw(laws())
     filters = draw(fit_filters(law, 2, max_filters))
@@ -294,12 +300,20 @@ def fit_case_2d(draw, max_models=8, max_filters=6, max_sources=5, formats=('v1',
         row = [b[1] if b[0] == 'fit' else grid['logflux'][0][j] for j, b in enumerate(bands)]
         grid['logflux'][0] = [min(max(v, -30.), 30.) for v in row]
     fmt = draw(st.sampled_from(formats))
+    if fmt == 'v2wav' and draw(st.integers(0, 3)) == 0:
+        grid['names'] = long_names(grid['names'])
     memmap = draw(st.integers(0, 9)) == 0 if fmt != 'v1' else False
     nr = draw(st.integers(1, 2))
     return {'format': fmt, 'memmap': memmap, 'law': law, 'filters': filters, 'grid': grid, 'sources': srcs,
             'av_ranges': [draw(av_ranges()) for _ in range(nr)],
             'law_units': draw(st.sampled_from([['um', 'cm2/g'], ['um', 'cm2/g'], ['nm', 'm2/kg'], ['cm', 'cm2/g']])),
-            'theta': draw(st.lists(st.floats(0.5, 10., allow_nan=False), min_size=nf, max_size=nf))}
+            'theta': draw(st.lists(st.floats(0.5, 10., allow_nan=False), min_size=nf, max_size=nf)),
+            # convolved/<filter>.fits and parameters.fits may be gzip-compressed (documented layout)
+            'compress': draw(st.sampled_from([None, None, None, None, 'convolved', 'parameters', 'both'])),
+            # 'v2mixed': a cube package whose filters are given partly by name (convolved files) and partly as wavelengths
+            'by_name': [draw(st.booleans()) for _ in range(nf)],
+            # the unit the cube / the convolved files are stored in
+            'cube_unit': draw(st.sampled_from(['mJy', 'mJy', 'Jy'])), 'conv_unit': draw(st.sampled_from(['mJy', 'mJy', 'Jy']))}
 
 
 # ------------------------------------------------------------------------------------------------
@@ -321,19 +335,33 @@ def build_package_2d(model_dir, case):
     logf = case['grid']['logflux']
     filters = case['filters']
     fmt = case['format']
+    comp = case.get('compress')
     pkgio.write_conf(model_dir, False, 0.02, version=None if fmt == 'v1' else 2)
-    pkgio.write_parameters(model_dir, names, {'par1': [float(i) for i in range(len(names))]})
+    pkgio.write_parameters(model_dir, names, {'par1': [float(i) for i in range(len(names))]}, gz=comp in ('parameters', 'both'),
+                           width=max([30] + [len(x) for x in names]))
     flux = [[10. ** logf[m][j] for j in range(len(filters))] for m in range(len(names))]
-    if fmt in ('v1', 'v2name'):
+    cunit, vunit = case.get('conv_unit', 'mJy'), case.get('cube_unit', 'mJy')
+    cfac, vfac = (1e-3 if cunit == 'Jy' else 1.), (1e-3 if vunit == 'Jy' else 1.)
+    if fmt in ('v1', 'v2name', 'v2mixed'):
         for j, f in enumerate(filters):
-            col = [[flux[m][j]] for m in range(len(names))]
-            pkgio.write_convolved(model_dir, f['name'], names, f['wav'], None, col, [[0.] for _ in names])
+            col = [[flux[m][j] * cfac] for m in range(len(names))]
+            pkgio.write_convolved(model_dir, f['name'], names, f['wav'], None, col, [[0.] for _ in names],
+                                  gz=comp in ('convolved', 'both'), unit=cunit)
     if fmt != 'v1':
         order = sorted(range(len(filters)), key=lambda j: filters[j]['wav'])
         wav = [filters[j]['wav'] for j in order]
-        val = [[[flux[m][j] for j in order]] for m in range(len(names))]
-        unc = [[[0.1 * flux[m][j] for j in order]] for m in range(len(names))]
-        pkgio.write_cube(os.path.join(model_dir, 'flux.fits'), names, wav, None, val, unc, valid=cube_valid_flags(case))
+        val = [[[flux[m][j] * vfac for j in order]] for m in range(len(names))]
+        unc = [[[0.1 * flux[m][j] * vfac for j in order]] for m in range(len(names))]
+        pkgio.write_cube(os.path.join(model_dir, 'flux.fits'), names, wav, None, val, unc, valid=cube_valid_flags(case),
+                         val_unit=vunit)
+
+
+def named_filter(case, j):
+    """in a 'v2mixed' case: is filter j given by name (convolved file) rather than as a wavelength?  Filters that share a
+    name (the same band through two apertures) are given alike."""
+    flags = case.get('by_name') or []
+    first = [f['name'] for f in case['filters']].index(case['filters'][j]['name'])
+    return bool(flags[first]) if first < len(flags) else first % 2 == 0
 
 
 def make_fitter(model_dir, case, av_range, distance_range=None):
@@ -344,13 +372,15 @@ def make_fitter(model_dir, case, av_range, distance_range=None):
     # the documented interface takes Quantities: any length unit for a wavelength "filter", any angle unit for apertures
     # (chosen deterministically from the case so that replays reproduce it)
     pick = (len(case['filters']) + len(case['grid']['names'])) % 3
-    if case['format'] == 'v2wav':
+    if case['format'] in ('v2wav', 'v2mixed'):
         wu = [u.micron, u.nm, u.mm][pick]
         if wu is not u.micron and not all(float((f['wav'] * u.micron).to(wu).to(u.micron).value) == f['wav'] for f in case['filters']):
             # only when the round trip is exact: a wavelength that moves by one ulp is no longer a tabulated wavelength
             # (and may cross an end node of the extinction law), which is outside what the checks claim
             wu = u.micron
         fnames = [(f['wav'] * u.micron).to(wu) if wu is not u.micron else f['wav'] * u.micron for f in case['filters']]
+        if case['format'] == 'v2mixed':
+            fnames = [f['name'] if named_filter(case, j) else fnames[j] for j, f in enumerate(case['filters'])]
     else:
         fnames = [f['name'] for f in case['filters']]
     aps = np.array(case['theta']) * u.arcsec
@@ -399,11 +429,27 @@ def grids_3d(draw, nfilt, nmin=1, nmax=6, apmin=1, apmax=8):
     return {'names': names, 'apertures': aps, 'flux': flux, 'monotone': monotone}
 
 
+NICE = [1., 1.2, 1.5, 2., 2.5, 3., 4., 5., 6., 8.]
+
+
+def nice_at_least(x):
+    """the smallest 'typed' number d x 10^k (d from NICE) that is >= x"""
+    k = int(math.floor(math.log10(x)))
+    for kk in (k, k + 1):
+        for d in NICE:
+            v = float('%ge%d' % (d, kk))
+            if v >= x:
+                return v
+    return float('1e%d' % (k + 2))
+
+
 @st.composite
-def distance_setup(draw, apertures, nfilt):
+def distance_setup(draw, apertures, nfilt, step=None, shapes=('many', 'integer_ratio', 'beyond', 'within_step', 'single',
+                                                              'typed_decade')):
     """theta per filter, distance range, logd_step; theta*dmin >= (1+1e-9)*smallest aperture by construction."""
-    step = draw(st.one_of(st.sampled_from([0.02, 0.025, 0.1, 0.5, 1.0]), logfloat(0.005, 1.)))
-    shape = draw(st.sampled_from(['many', 'integer_ratio', 'beyond', 'within_step', 'single']))
+    if step is None:
+        step = draw(st.one_of(st.sampled_from([0.02, 0.025, 0.1, 0.5, 1.0]), logfloat(0.005, 1.)))
+    shape = draw(st.sampled_from(list(shapes)))
     theta = draw(st.lists(st.floats(0.1, 30., allow_nan=False), min_size=nfilt, max_size=nfilt))
     if draw(st.booleans()):
         # filters usually share a few angular apertures (e.g. 3" for all IRAC bands)
@@ -425,12 +471,21 @@ def distance_setup(draw, apertures, nfilt):
     else:
         dmax = dmin * 10. ** draw(st.floats(0.01, min(2.5, 40 * step), allow_nan=False))
     unit = draw(st.sampled_from(['kpc', 'kpc', 'pc', 'cm']))
-    return {'step': step, 'theta': theta, 'dmin_kpc': dmin, 'dmax_kpc': dmax, 'unit': unit, 'shape': shape}
+    out = {'step': step, 'theta': theta, 'dmin_kpc': dmin, 'dmax_kpc': dmax, 'unit': unit, 'shape': shape}
+    if shape == 'typed_decade':
+        # a range as a person types it: round numbers in pc or kpc spanning one or two decades (or a factor 2 / 5), so
+        # that with the usual steps the range is a whole number of steps up to the rounding of the unit conversion
+        unit = draw(st.sampled_from(['pc', 'pc', 'kpc']))
+        fac = 1e-3 if unit == 'pc' else 1.
+        lo = nice_at_least(dmin / fac)
+        hi = float(repr(lo * draw(st.sampled_from([10., 10., 100., 2., 5.]))))
+        out.update({'unit': unit, 'typed': [lo, hi], 'dmin_kpc': lo * fac, 'dmax_kpc': hi * fac})
+    return out
 
 
 @st.composite
-def fit_case_3d(draw, max_models=6, max_filters=5, max_sources=4, formats=('v1', 'v1', 'v2name', 'v2wav'), apmin=1,
-                ignored='positive'):
+def fit_case_3d(draw, max_models=6, max_filters=5, max_sources=4, formats=('v1', 'v1', 'v2name', 'v2wav', 'v2mixed'), apmin=1,
+                ignored='positive', repeat_filter=False, setup_kwargs=None):
     law = draw(laws())
     filters = draw(fit_filters(law, 1, max_filters))
     nf = len(filters)
@@ -438,8 +493,20 @@ def fit_case_3d(draw, max_models=6, max_filters=5, max_sources=4, formats=('v1',
     if all(kk == 0. for kk in k):
         filters[0]['wav'] = 0.55 if not any(abs(f['wav'] - 0.55) < 1e-6 for f in filters[1:]) else 0.5501
         k = of.extinction_pattern(law['wav'], law['chi'], [f['wav'] for f in filters])
+    j0 = None
+    if repeat_filter and draw(st.integers(0, 3)) == 0:
+        # the same band measured through two angular apertures: the filter is listed twice
+        j0 = draw(st.integers(0, nf - 1))
+        filters.append(dict(filters[j0]))
+        k = list(k) + [k[j0]]
+        nf += 1
     grid = draw(grids_3d(nf, 1, max_models, apmin=apmin))
-    setup = draw(distance_setup(grid['apertures'], nf))
+    setup = draw(distance_setup(grid['apertures'], nf, **(setup_kwargs or {})))
+    if j0 is not None:
+        for m in range(len(grid['names'])):
+            grid['flux'][m][nf - 1] = list(grid['flux'][m][j0])
+        if setup['theta'][nf - 1] == setup['theta'][j0]:
+            setup['theta'][nf - 1] = setup['theta'][j0] * 2.5
     # log fluxes near the middle of the grid for planting photometry
     dmid = math.sqrt(setup['dmin_kpc'] * setup['dmax_kpc'])
     logmodels = []
@@ -452,17 +519,27 @@ def fit_case_3d(draw, max_models=6, max_filters=5, max_sources=4, formats=('v1',
     ns = draw(st.integers(1, max_sources))
     srcs = [draw(sources(nf, k=k, logmodels=logmodels, distance_mode=True, ignored=ignored)) for _ in range(ns)]
     fmt = draw(st.sampled_from(formats))
+    if fmt == 'v2wav' and draw(st.integers(0, 3)) == 0:
+        grid['names'] = long_names(grid['names'])
     memmap = draw(st.integers(0, 9)) == 0 if fmt != 'v1' else False
+    counts = ([draw(st.integers(1, len(grid['apertures']))) for _ in range(nf)]
+              if fmt in ('v1', 'v2name') and draw(st.integers(0, 2)) == 0 else None)
+    if counts and j0 is not None:
+        counts[nf - 1] = counts[j0]     # one file per filter name
     return {'format': fmt, 'memmap': memmap, 'law': law, 'filters': filters, 'grid': grid, 'sources': srcs,
             'setup': setup, 'av_ranges': [draw(av_ranges())], 'theta': setup['theta'],
             'ap_storage': draw(st.sampled_from(['asc', 'asc', 'asc', 'desc', 'shuffled'])),
             # every convolved/<filter>.fits carries its own APERTURES table: a filter may tabulate only the first n_j
             # apertures of the common grid (per-file tables; the cube holds one table for all wavelengths)
-            'ap_count_by_filter': ([draw(st.integers(1, len(grid['apertures']))) for _ in range(nf)]
-                                   if fmt in ('v1', 'v2name') and draw(st.integers(0, 2)) == 0 else None),
+            'ap_count_by_filter': counts,
             'ap_shuffle': list(draw(st.permutations(list(range(len(grid['apertures'])))))),
             'law_units': draw(st.sampled_from([['um', 'cm2/g'], ['um', 'cm2/g'], ['nm', 'm2/kg']])),
-            'ap_unit': draw(st.sampled_from(['AU', 'AU', 'pc', 'cm']))}
+            'ap_unit': draw(st.sampled_from(['AU', 'AU', 'pc', 'cm'])),
+            'compress': draw(st.sampled_from([None, None, None, None, 'convolved', 'parameters', 'both'])),
+            # 'v2mixed': a cube package whose filters are given partly by name (convolved files) and partly as wavelengths
+            'by_name': [draw(st.booleans()) for _ in range(nf)],
+            # the unit the cube / the convolved files are stored in
+            'cube_unit': draw(st.sampled_from(['mJy', 'mJy', 'Jy'])), 'conv_unit': draw(st.sampled_from(['mJy', 'mJy', 'Jy']))}
 
 
 AP_UNIT_FACTOR = {'AU': 1., 'pc': 1. / of.PC_AU, 'cm': 1.495978707e13}
@@ -491,29 +568,40 @@ def build_package_3d(model_dir, case):
         aidx = aidx[::-1]
     elif storage == 'shuffled':
         aidx = list(case['ap_shuffle'])
+    comp = case.get('compress')
     pkgio.write_conf(model_dir, True, case['setup']['step'], version=None if fmt == 'v1' else 2)
-    pkgio.write_parameters(model_dir, names, {'par1': [float(i) for i in range(len(names))]})
-    if fmt in ('v1', 'v2name'):
+    pkgio.write_parameters(model_dir, names, {'par1': [float(i) for i in range(len(names))]}, gz=comp in ('parameters', 'both'),
+                           width=max([30] + [len(x) for x in names]))
+    cunit, vunit = case.get('conv_unit', 'mJy'), case.get('cube_unit', 'mJy')
+    cfac, vfac = (1e-3 if cunit == 'Jy' else 1.), (1e-3 if vunit == 'Jy' else 1.)
+    # a filter listed twice (same band, two apertures) is ONE file / one cube slice
+    seen = set()
+    uniq = [j for j, f in enumerate(filters) if not (f['name'] in seen or seen.add(f['name']))]
+    if fmt in ('v1', 'v2name', 'v2mixed'):
         counts = case.get('ap_count_by_filter')
-        for j, f in enumerate(filters):
+        for j in uniq:
+            f = filters[j]
             jidx = aidx if not counts else [a for a in aidx if a < counts[j]]
-            fl = [[grid['flux'][m][j][a] for a in jidx] for m in range(len(names))]
+            fl = [[grid['flux'][m][j][a] * cfac for a in jidx] for m in range(len(names))]
             er = [[0.05 * v for v in row] for row in fl]
-            pkgio.write_convolved(model_dir, f['name'], names, f['wav'], [grid['apertures'][a] for a in jidx], fl, er)
+            pkgio.write_convolved(model_dir, f['name'], names, f['wav'], [grid['apertures'][a] for a in jidx], fl, er,
+                                  gz=comp in ('convolved', 'both'), unit=cunit)
     if fmt != 'v1':
-        order = sorted(range(len(filters)), key=lambda j: filters[j]['wav'])
+        order = sorted(uniq, key=lambda j: filters[j]['wav'])
         wav = [filters[j]['wav'] for j in order]
-        val = [[[grid['flux'][m][j][a] for j in order] for a in aidx] for m in range(len(names))]
+        val = [[[grid['flux'][m][j][a] * vfac for j in order] for a in aidx] for m in range(len(names))]
         unc = [[[0.05 * v for v in row] for row in mod] for mod in val]
         unit = case.get('ap_unit', 'AU')
         aps = [grid['apertures'][a] * AP_UNIT_FACTOR[unit] for a in aidx]
         pkgio.write_cube(os.path.join(model_dir, 'flux.fits'), names, wav, aps, val, unc, ap_unit=unit,
-                         valid=cube_valid_flags(case))
+                         valid=cube_valid_flags(case), val_unit=vunit)
 
 
 def distance_range_quantity(setup):
     from astropy import units as u
     import numpy as np
+    if setup.get('typed'):
+        return np.array(setup['typed']) * {'pc': u.pc, 'kpc': u.kpc}[setup['unit']]
     dr = np.array([setup['dmin_kpc'], setup['dmax_kpc']]) * u.kpc
     if setup['unit'] == 'kpc':
         return dr
